@@ -158,6 +158,89 @@ CORPUS = [
 ]
 
 
+MIRROR_CORPUS = [
+    # DESIGN 8 #7: 1 of 4 equal validators sends two prevotes for the next round
+    {"powers": [1, 1, 1, 1], "prevote": True, "round": 1, "entries": [("aa", 1), ("bb", 1)]},
+    {"powers": [1, 1, 1, 1], "prevote": False, "round": 1, "entries": [("aa", 1), ("bb", 1), ("-", 1)]},
+    # 1 of 4 signs every target in the voting round: must not be "fully voted"
+    {"powers": [1, 1, 1, 1], "prevote": False, "round": 0, "entries": [("aa", 1), ("bb", 1), ("ab", 1), ("-", 1)]},
+    # genuine minority of two validators: the jump is live
+    {"powers": [1, 1, 1, 1], "prevote": True, "round": 1, "entries": [("aa", 1), ("bb", 2)]},
+    # 100% present without consensus / nil majority: round advances
+    {"powers": [1, 1, 1, 1], "prevote": False, "round": 0, "entries": [("aa", 3), ("-", 12)]},
+    {"powers": [1, 1, 1, 1], "prevote": False, "round": 0, "entries": [("-", 7)]},
+]
+
+
+def gen_mirror_case(rng, cid):
+    n = rng.choice([1, 2, 3, 4, 4, 4, 5, 6, 7, 8, 10])
+    while True:
+        powers, pmode = gen_powers(rng, n)
+        if pmode != "overflow" and sum(powers) >= 1 and len(powers) == n:
+            break
+    s = rng.below(100)
+    style = "tie" if s < 10 else ("minority" if s < 55 else "random")
+    if style == "tie" and pmode != "equal":
+        powers, pmode = [rng.choice([1, 7])] * n, "equal"
+    ents = [e for e in gen_kind(rng, n, n, powers, style) if e[1] != 0]
+    if not ents:
+        ents = [(rng.choice(HASH_POOL), 1 << rng.below(n))]
+    prevote = rng.chance(1, 2)
+    rnd = rng.choice([0, 1, 1])
+    total = sum(powers)
+    maj = 2 * total // 3 + 1
+    if not prevote and rnd == 1:
+        mx = max(sum(p for i, p in enumerate(powers) if m >> i & 1) for _, m in ents)
+        if mx >= maj:
+            rnd = 0  # the kernel has an explicit TODO panic for a majority precommit in the next round (C09's subject)
+    return {"id": cid, "powers": powers, "prevote": prevote, "round": rnd, "entries": ents, "pmode": pmode, "style": style}
+
+
+def mirror_line(c):
+    return "%d|%s|%s|%d|%s" % (c["id"], ",".join(str(p) for p in c["powers"]), "pv" if c["prevote"] else "pc", c["round"],
+                               ";".join("%s:%d" % (h, m) for h, m in c["entries"]))
+
+
+def parse_mirror_obs(line):
+    f = line.split("|")
+    if len(f) != 13:
+        return None
+
+    def pe(s):
+        return [] if s == "." else [(e.split(":")[0], int(e.split(":")[1])) for e in s.split(";")]
+    return {"id": int(f[0]), "res": int(f[1]), "h": int(f[2]), "r": int(f[3]), "avail": int(f[4]), "tpv": int(f[5]), "tpc": int(f[6]),
+            "pvb": parse_map(f[7]), "pcb": parse_map(f[8]), "mpv": f[9], "mpc": f[10], "pvp": pe(f[11]), "pcp": pe(f[12])}
+
+
+def coq_mcase(c, o):
+    return ("mk_mcase %d [%s] %s %d %s %d %d %d (mk_obs %d %d %d %s %s %s %s None) %s %s" % (
+        c["id"], ";".join(str(p) for p in c["powers"]), "true" if c["prevote"] else "false", c["round"], coq_entries(c["entries"]),
+        o["res"], o["h"], o["r"], o["avail"], o["tpv"], o["tpc"], coq_entries(o["pvb"]), coq_entries(o["pcb"]),
+        coq_hash(o["mpv"]), coq_hash(o["mpc"]), coq_entries(o["pvp"]), coq_entries(o["pcp"])))
+
+
+MCASES_HEADER = """From Coq Require Import List NArith String.
+From GV Require Import Base.Ints Model.VoteSummary Monitors.C06m Model.C06Run.
+Import ListNotations. Local Open Scope N_scope.
+%s
+Definition mcases : list mcase := [
+%s
+].
+Definition mcorr_bad := Eval vm_compute in firstn 20 (mbad_ids mcorr_ok mcases).
+Definition mmon_bad := Eval vm_compute in firstn 20 (mbad_codes mcases).
+Print mcorr_bad. Print mmon_bad.
+"""
+
+
+def mirror_replay(c, o):
+    return {"mirror_cases": [mirror_line(c)],
+            "input": {"powers": c["powers"], "message": "prevotes" if c["prevote"] else "precommits", "height": 1, "round": c["round"],
+                      "votes": c["entries"]},
+            "observed": o, "distinct_signer_power": distinct_power(c["powers"], c["entries"]),
+            "minority_threshold": (sum(c["powers"]) + 2) // 3,
+            "how": "echo '%s' | bin/h_c06 mirror   (fields: id|result|H|R|available|totPV|totPC|pvBlock|pcBlock|mostPV|mostPC|pvProofs|pcProofs)" % mirror_line(c)}
+
+
 # ----------------------------------------------------------------------------- python-side statistics only
 def distinct_power(powers, ents):
     u = 0
@@ -239,9 +322,11 @@ Definition cases : list case := [
 ].
 Definition corr_bad := Eval vm_compute in firstn 20 (bad_ids corr_ok cases).
 Definition mon_bad := Eval vm_compute in firstn 20 (bad_codes cases).
-Definition model_bad := Eval vm_compute in firstn 20 (bad_ids model_mon_ok cases).
+%s
 Print corr_bad. Print mon_bad. Print model_bad.
 """
+MODEL_BAD_ON = "Definition model_bad := Eval vm_compute in firstn 20 (bad_ids model_mon_ok cases)."
+MODEL_BAD_OFF = "Definition model_bad : list N := []. (* quick tier: C06_model_satisfies_monitor is proved; evaluated in the thorough tier *)"
 
 CODE_BITS = [(1, "available-power"), (2, "total-prevote-power"), (4, "total-precommit-power"), (8, "prevote-block-power"),
              (16, "precommit-block-power"), (32, "most-voted-prevote"), (64, "most-voted-precommit"), (128, "step"),
@@ -277,9 +362,11 @@ def main(argv):
                   "a Go map has distinct keys (entries of a proof map have distinct block hashes)",
                   "a proof's SignatureBitSet has bit i set iff key i of the proof's key list signed (C13's subject)"]
     c.grep_gate()
+    import time
+    marks = [("start", time.time())]
 
     # ---- cases
-    n_cases = 1200 if c.tier == "quick" else 30000
+    n_cases = 600 if c.tier == "quick" else 30000
     cases = []
     for i, cc in enumerate(CORPUS):
         d = dict(cc)
@@ -308,6 +395,7 @@ def main(argv):
     else:
         proved = c.prove("C06")
 
+    marks.append(("translate+prove", time.time()))
     # ---- 3. the real code
     binary, blog = c.go_build("c06")
     if binary is None:
@@ -330,17 +418,19 @@ def main(argv):
             c.report("recompute-not-deterministic", "two recomputations of the summary from the same proofs differ", replay_of(x, obs[x["id"]]))
             break
 
+    marks.append(("go build+run", time.time()))
     # ---- 4. model + monitors inside Coq
     corr_bad, mon_bad, model_bad = [], [], []
     evaluated = 0
     models_ok = c.coq_make(["Model/C06Run.vo"])[0] if tok else False
     if models_ok:
-        shard = 250
+        shard = 320 if c.tier == "quick" else 400
         hdefs = "\n".join("Definition h%d : hash := %s." % (i, coq_hash_lit(h)) for i, h in enumerate(HASH_POOL))
         jobs = []
         for si in range(0, len(done), shard):
             sh = done[si:si + shard]
-            jobs.append((si // shard, sh, CASES_HEADER % (hdefs, ";\n".join(coq_case(x, obs[x["id"]]) for x in sh))))
+            jobs.append((si // shard, sh, CASES_HEADER % (hdefs, ";\n".join(coq_case(x, obs[x["id"]]) for x in sh),
+                                                           MODEL_BAD_ON if (c.tier != "quick" or c.replay or not proved) else MODEL_BAD_OFF)))
         from concurrent.futures import ThreadPoolExecutor
         with ThreadPoolExecutor(max_workers=6) as ex:
             results = list(ex.map(lambda j: c.coq_eval("c06_cases_%d" % j[0], j[2]), jobs))
@@ -356,6 +446,7 @@ def main(argv):
     elif tok:
         c.fail_obligation("Model/C06Run.v", getattr(c, "last_coq_log", "")[-1500:] or "model does not build")
 
+    marks.append(("coq eval pure cases", time.time()))
     # ---- 5. verdict
     reported = set()
     for cid, code in mon_bad:
@@ -383,6 +474,71 @@ def main(argv):
         c.fail_obligation("Properties/C06.v (%s)" % b["file"], b["log"], {"searched_inputs": evaluated,
                           "note": "monitor evaluated on the implementation's output for every generated case without a failure"})
 
+    # ---- 6. single-message scenarios on the real mirror
+    mcases = []
+    if c.replay:
+        rp = json.load(open(c.replay))
+        for i, line in enumerate(rp.get("mirror_cases", [])):
+            f = line.split("|")
+            mcases.append({"id": i, "powers": [int(x) for x in f[1].split(",")], "prevote": f[2] == "pv", "round": int(f[3]),
+                           "entries": [(e.split(":")[0], int(e.split(":")[1])) for e in f[4].split(";")], "pmode": "replay", "style": "replay"})
+    else:
+        for i, cc in enumerate(MIRROR_CORPUS):
+            d = dict(cc)
+            d.update({"id": i, "pmode": "corpus", "style": "corpus"})
+            mcases.append(d)
+        n_m = 200 if c.tier == "quick" else 6000
+        while len(mcases) < n_m:
+            mcases.append(gen_mirror_case(c.rng, len(mcases)))
+    mobs, mcorr_bad, mmon_bad, mevaluated = {}, [], [], 0
+    if mcases:
+        rc, out, err = c.run_bin(binary, args=["mirror"], stdin="\n".join(mirror_line(x) for x in mcases) + "\n")
+        for line in out.splitlines():
+            o = parse_mirror_obs(line)
+            if o is not None:
+                mobs[o["id"]] = o
+        if len(mobs) != len(mcases):
+            missing = [x for x in mcases if x["id"] not in mobs][:1]
+            c.fail_obligation("mirror-harness-run", "mirror harness returned %d of %d results (rc=%s): %s %s" % (
+                len(mobs), len(mcases), rc, out[-300:], err[-600:]), {"mirror_cases": [mirror_line(x) for x in missing]})
+        mdone = [x for x in mcases if x["id"] in mobs]
+        mbyid = {x["id"]: x for x in mdone}
+        if models_ok and mdone:
+            hdefs = "\n".join("Definition h%d : hash := %s." % (i, coq_hash_lit(h)) for i, h in enumerate(HASH_POOL))
+            jobs = [(si // 500, mdone[si:si + 500]) for si in range(0, len(mdone), 500)]
+            from concurrent.futures import ThreadPoolExecutor
+            with ThreadPoolExecutor(max_workers=6) as ex:
+                results = list(ex.map(lambda j: c.coq_eval("c06_mcases_%d" % j[0], MCASES_HEADER % (
+                    hdefs, ";\n".join(coq_mcase(x, mobs[x["id"]]) for x in j[1]))), jobs))
+            for (si, sh), (ok, cout) in zip(jobs, results):
+                if not ok:
+                    c.fail_obligation("mirror-cases-eval", cout[-1500:])
+                    break
+                mevaluated += len(sh)
+                mcorr_bad += grab_list(cout, "mcorr_bad") or []
+                mb = grab_list(cout, "mmon_bad") or []
+                mmon_bad += list(zip(mb[0::2], mb[1::2]))
+        seen = set()
+        for cid, code in mmon_bad:
+            key = "mirror-round-moved-by-sub-minority-signers" if code & 2 else "mirror-summary-differs-from-recomputation"
+            if key in seen:
+                continue
+            seen.add(key)
+            x, o = mbyid[cid], mobs[cid]
+            c.report(key, "real Mirror, fresh at height 1 round 0, one %s message for round %d with votes %s from validators of powers %s "
+                          "(distinct signer power %d, minority threshold %d) -> voting view height %d round %d, summary available=%d "
+                          "totalPrevote=%d totalPrecommit=%d" % (
+                              "prevote" if x["prevote"] else "precommit", x["round"], x["entries"], x["powers"],
+                              distinct_power(x["powers"], x["entries"]), (sum(x["powers"]) + 2) // 3, o["h"], o["r"], o["avail"], o["tpv"], o["tpc"]),
+                     mirror_replay(x, o))
+        if mcorr_bad and not mmon_bad and not mon_bad:
+            x = mbyid[mcorr_bad[0]]
+            c.fail_obligation("correspondence mirror_predict (Model/C06Run.v) vs real Mirror",
+                              "model and real mirror differ on scenario ids %s; the monitors hold on the implementation's observations" % mcorr_bad[:10],
+                              mirror_replay(x, mobs[x["id"]]))
+
+    marks.append(("mirror scenarios", time.time()))
+    c.coverage["phase_seconds"] = {marks[i][0]: round(marks[i][1] - marks[i - 1][1], 1) for i in range(1, len(marks))}
     # ---- evidence
     st = {"equivocation": 0, "tie": 0, "minority_only_voters": 0, "overflow_guard_off": 0, "index_guard_exercised": 0,
           "step_panics": 0, "nil_target": 0}
@@ -415,11 +571,17 @@ def main(argv):
         "rule": "one evaluation = one (powers, prevote map, precommit map) triple run through the real SetAvailablePower/SetVotePowers/"
                 "SetPrevotePowers/SetPrecommitPowers, GetStepFromVoteSummary and newVoteDistribution (x2 kinds) and through the Coq model; "
                 "non-trivial = at least one validator and one signature; distinct by input text",
-        "traces_validated_against_impl": evaluated,
+        "traces_validated_against_impl": evaluated + mevaluated,
         "correspondence_disagreements": len(corr_bad),
         "monitor_failures_on_impl": len(mon_bad),
         "input_distribution": {"cases": len(done), "classes": st, "equivocation_ratio": round(st["equivocation"] / max(1, len(done)), 3),
                                "power_modes": pmodes, "validator_counts": sizes, "steps_observed": steps},
+        "mirror_scenarios": {"run": len(mcases), "evaluated": mevaluated, "correspondence_disagreements": len(mcorr_bad),
+                             "monitor_failures": len(mmon_bad),
+                             "round_moved": sum(1 for o in mobs.values() if o["r"] != 0),
+                             "sub_minority_messages": sum(1 for x in mcases if x["id"] in mobs and distinct_power(x["powers"], x["entries"]) < (sum(x["powers"]) + 2) // 3),
+                             "equivocating_messages": sum(1 for x in mcases if equivocates(x["powers"], x["entries"])),
+                             "kinds": {k: sum(1 for x in mcases if ("pv" if x["prevote"] else "pc") + str(x["round"]) == k) for k in ("pv0", "pv1", "pc0", "pc1")}},
         "generated_definitions": ["Gen/Step.v get_step <- tsi/step.go GetStepFromVoteSummary", "Gen/Math.v byz_majority/byz_minority <- tmconsensus/math.go"],
     })
     if st["equivocation"] * 4 < len(done) and not c.replay:
